@@ -198,9 +198,13 @@ def r16_3(ctx):
                     # guarded path the count is the other arm and it being positive says the size exceeds N
                     arms = [expr.body, expr.orelse]
                     zero = [a for a in arms if isinstance(a, ast.Constant) and a.value == 0]
-                    if len(zero) == 1 and (facts.get(f"({norm(expr)}) > 0") is True or facts.get(f"{norm(expr)} > 0") is True or facts.get(f"{norm(fields[0][1])} > 0") is True):
+                    if len(zero) == 1 and (facts.get(f"({norm(expr)}) > 0") is True or facts.get(f"{norm(expr)} > 0") is True or facts.get(f"{norm(fields[0][1])} > 0") is True
+                                           or facts.get(norm(expr)) is True or facts.get(f"({norm(expr)})") is True or facts.get(norm(fields[0][1])) is True):
                         expr = [a for a in arms if a is not zero[0]][0]
                         exceeded = True
+                if exceeded and isinstance(expr, ast.Call) and norm(expr.func) == "max" and len(expr.args) == 2 and any(isinstance(a, ast.Constant) and a.value == 0 for a in expr.args):
+                    # max(0, X) that is known positive is X
+                    expr = [a for a in expr.args if not (isinstance(a, ast.Constant) and a.value == 0)][0]
                 ok = isinstance(expr, ast.BinOp) and isinstance(expr.op, ast.Sub) and norm(expr.left) == "len(obj)" and {norm(expr.right)} == bounds
                 ok = ok and (exceeded or facts.get(f"len(obj) > {norm(expr.right)}") is True or facts.get(f"{norm(expr.right)} < len(obj)") is True)
                 ctx.check(ok, f.fq, short(x), f"{m.relpath}:{x.lineno}", f"omitted items = len(obj) - {sorted(bounds)} (the islice bound), only when exceeded",
@@ -318,6 +322,8 @@ def r16_4(ctx):
     n_child = 0
     okx = bool(PX)
     badx = None
+    if PX and not any(e[0] in ("yield", "yieldfrom") or (e[0] == "loop" and any(y[0] in ("yield", "yieldfrom") for b in e[3] for y in b)) for p in PX for e in p):
+        raise AnalysisError("_Line.expand: the lines are not yielded one by one (a list is built and returned); the per-child suffix clause reads the generator form and is not decided here")
     from ..yieldpaths import consistent as _cons164
     T1 = {"self.node.is_tuple": True, "len(self.node.children) == 1": True, "node.is_tuple": True, "len(node.children) == 1": True}
     for p in PX:
